@@ -269,6 +269,9 @@ func ParentMain(o RunOptions) int {
 		}
 		sort.Strings(names)
 		for _, k := range names {
+			if os.Getenv("VERIF_FLOOR_REPORT") != "" && fl[k] > 0 {
+				fmt.Printf("FLOOR %s %s counter=%d floor=%d ratio=%.1f\n", o.PropID, k, a.counters[k], fl[k], float64(a.counters[k])/float64(fl[k]))
+			}
 			if a.counters[k] < fl[k] {
 				a.inconcl = append(a.inconcl, fmt.Sprintf("coverage floor not reached: %s=%d < %d", k, a.counters[k], fl[k]))
 			}
